@@ -25,8 +25,9 @@ VARIANTS = {
     'a': ['from b import *\n', 'import b\nx = b.x\n', 'from b import x\n', 'from b import x as y\nimport b\n'],
     'b': ['x = 1\n', 'y = 1\nx = y\n', 'from c import *\n', 'from c import z as x\n'],
     'c': ['z = 1\nx = 2\n', 'w = 1\nz = w\n', 'x = 3\nz = 4\ny = 5\n'],
+    'pk/d': ['q = 1\n', 'r = 2\nq = r\n', 'from c import *\n'],
 }
-FILES = ('a', 'b', 'c')
+FILES = ('a', 'b', 'c', 'pk/d')
 
 
 class FakePath(object):
@@ -95,7 +96,12 @@ REQUESTS = (
     ('lint', 'from a import x\nprint(x)\n', None),
     ('assist', 'from a import ', (1, 14)),
     ('location', 'from b import x\nx', (2, 1)),
+    ('assist', 'from pk import d\nd.', (2, 2)),
+    ('assist', 'import pk.d\npk.d.', (2, 5)),
+    ('assist', 'import c\nc.', (2, 2)),
+    ('assist', 'from pk import ', (1, 15)),
 )
+VIA_IMPORTERS = (0, 1, 2, 3, 4)      # requests that reach c.py through a.py / b.py
 
 
 def ask(project, req):
@@ -119,9 +125,10 @@ def history_ok(init, ops, times, req, warm):
     """init: (va, vb, vc) initial variants (vc = -1: c.py does not exist yet)
     ops: list of (file index, variant); times: symbolic mtimes, times[0..2] initial, then one per op"""
     FS.clear()
+    FS['/r/pk/__init__.py'] = [0, '']
     for i, f in enumerate(FILES):
         if init[i] >= 0:
-            FS['/r/%s.py' % f] = [times[i], VARIANTS[f][init[i]]]
+            FS['/r/%s.py' % f] = [times[i] if i < 3 else times[5], VARIANTS[f][init[i]]]
     with patched():
         p = Project(['/r'])
         ask(p, warm)
@@ -136,30 +143,30 @@ def history_ok(init, ops, times, req, warm):
 
 
 def check(va: int, vb: int, vc: int, f1: int, v1: int, f2: int, v2: int, nops: int, req: int, warm: int,
-          t0: int, t1: int, t2: int, t3: int, t4: int) -> bool:
+          t0: int, t1: int, t2: int, t3: int, t4: int, vd: int = -1, t5: int = 0) -> bool:
     """
-    pre: 0 <= va <= 3 and 0 <= vb <= 3 and -1 <= vc <= 2
-    pre: 0 <= f1 <= 2 and 0 <= v1 <= 3 and 0 <= f2 <= 2 and 0 <= v2 <= 3
-    pre: 1 <= nops <= 2 and 0 <= req <= 4 and 0 <= warm <= 4
+    pre: 0 <= va <= 3 and 0 <= vb <= 3 and -1 <= vc <= 2 and -1 <= vd <= 2
+    pre: 0 <= f1 <= 3 and 0 <= v1 <= 3 and 0 <= f2 <= 3 and 0 <= v2 <= 3
+    pre: 1 <= nops <= 2 and 0 <= req <= 8 and 0 <= warm <= 8
     post: _
     """
     PATHS[0] += 1
-    va, vb, vc = _c(va, 0, 3), _c(vb, 0, 3), _c(vc, -1, 2)
-    f1, v1, f2, v2 = _c(f1, 0, 2), _c(v1, 0, 3), _c(f2, 0, 2), _c(v2, 0, 3)
-    nops, req, warm = _c(nops, 1, 2), _c(req, 0, 4), _c(warm, 0, 4)
-    if (f1 == 2 and v1 > 2) or (f2 == 2 and v2 > 2):
+    va, vb, vc, vd = _c(va, 0, 3), _c(vb, 0, 3), _c(vc, -1, 2), _c(vd, -1, 2)
+    f1, v1, f2, v2 = _c(f1, 0, 3), _c(v1, 0, 3), _c(f2, 0, 3), _c(v2, 0, 3)
+    nops, req, warm = _c(nops, 1, 2), _c(req, 0, 8), _c(warm, 0, 8)
+    if (f1 >= 2 and v1 > 2) or (f2 >= 2 and v2 > 2):
         return True
     ops = [(f1, v1), (f2, v2)][:nops]
-    init = (va, vb, vc)
-    times = [t0, t1, t2, t3, t4]
+    init = (va, vb, vc, vd)
+    times = [t0, t1, t2, t3, t4, t5]
     # an edit changes the file's modification time (a creation has no previous time); nothing else is assumed
     # about the clock: it may run backwards or repeat an older value
-    cur = {0: t0, 1: t1, 2: t2 if vc >= 0 else None}
+    cur = {0: t0, 1: t1, 2: t2 if vc >= 0 else None, 3: t5 if vd >= 0 else None}
     for k, (fi, v) in enumerate(ops):
         if cur[fi] is not None and times[3 + k] == cur[fi]:
             return True
         cur[fi] = times[3 + k]
-    if known_history(init, ops):
+    if known_history(init, ops, req):
         return True
     ok, got, fresh = history_ok(init, ops, times, req, warm)
     if TWIN[0]:
@@ -180,13 +187,23 @@ def _listed():
 LISTED = _listed()
 
 
-def known_history(init, ops):
-    """listed finding: a module that did not exist when its importer was analysed is created later"""
+def known_history(init, ops, req):
+    """listed finding: a module that did not exist when its importer was analysed is created later, and the
+    request reaches it through that (cached, unchanged) importer.  c.py is imported by b.py (and by pk/d.py
+    variant 2); requests that import the created module themselves are not covered by the finding."""
     if not LISTED:
         return False
-    exists = [True, True, init[2] >= 0]
+    init = tuple(init) + (-1,) * (4 - len(init))
+    exists = [True, True, init[2] >= 0, init[3] >= 0]
+    created_c = False
     for fi, v in ops:
-        if not exists[fi]:
-            return True
+        if not exists[fi] and fi == 2:
+            created_c = True
         exists[fi] = True
-    return False
+    if not created_c:
+        return False
+    if req in VIA_IMPORTERS:
+        return True
+    # pk/d.py variant 2 star-imports c: requests through pk.d see c through a cached importer too
+    d_imports_c = (init[3] == 2) or any(fi == 3 and v == 2 for fi, v in ops)
+    return d_imports_c and req in (5, 6)
